@@ -34,7 +34,7 @@ MANIFEST = {
 
 PARENT_SRC = '''
 from typing import Iterator, Generator
-def f(x: int, y: str = "a", *args, **kw) -> bool: ...
+def f(x: int, y: str = "a", *args: bytes, **kw: float) -> bool: ...
 def t(x: int, y: str = "a") -> tuple[int, str]: ...
 def gen(x: int, y: str = "a") -> Generator[int, str, bool]: ...
 def gent(x: int, y: str = "a") -> Generator[tuple[int, str], tuple[int, str], tuple[int, str]]: ...
@@ -50,8 +50,8 @@ class K2:
     x: float = 0.0
     def __init__(self, x: complex): ...
 '''
-SIG_ANN = {"x": "int", "y": "str"}
-SIG_DEFAULT = {"y": "'a'"}
+SIG_ANN = {"x": "int", "y": "str", "*args": "bytes", "**kw": "float"}
+SIG_DEFAULT = {"y": "'a'", "*args": "()", "**kw": "{}"}
 ATTR_ANN = {"a": "int", "b": "str"}
 
 D1 = [["Desc one."]]
@@ -83,7 +83,7 @@ def menu():
         add(kind, st, items=[_item("x", "int", D4), _item("y", "str")])
         # a default (written, or taken from the signature) followed by an item that has none: nothing may carry over to the next item
         add(kind, "n", items=[_item("y", "str", D1, default="'b'"), _item("x", None)])
-        add(kind, "gn", items=[_item("y", None), _item("x", None, D2)])
+        add(kind, "gn", items=[_item("y", None), _item("x", None, D2), _item("*args", None), _item("**kw", None)])  # (variadic parameters, documented with their stars)
         # a name the signature does not have (a key of **kw) after a typed item: neither annotation nor default may come from anywhere
         # (the name is a non-ASCII identifier)
         add(kind, "gn", items=[_item("x", "int"), _item("größe", None), _item("y", None)])
@@ -392,8 +392,9 @@ def expected(sections, style, opts, parent_kind):
         elif k in ("parameters", "other parameters"):
             items = []
             for it in s["items"]:
-                d = {"name": it["name"], "annotation": it["annotation"] or SIG_ANN.get(it["name"]), "description": _join(it["desc"], style)}
-                val = it["default"] or SIG_DEFAULT.get(it["name"])
+                in_sig = not it["name"].startswith("*") or parent_kind == "function"  # (only f takes *args / **kw; the other parents are plain (x, y) functions)
+                d = {"name": it["name"], "annotation": it["annotation"] or (SIG_ANN.get(it["name"]) if in_sig else None), "description": _join(it["desc"], style)}
+                val = it["default"] or (SIG_DEFAULT.get(it["name"]) if in_sig else None)
                 if val is not None:
                     d["value"] = val
                 items.append(d)
